@@ -326,11 +326,14 @@ def shapeServices (d : KVs) : Bool :=
 
 /-! ## `setNameFromKey` -/
 
-/-- `strconv.ParseBool(fmt.Sprint(x))` without the error -/
+/-- `isTrue` (loader/normalize.go): a boolean is itself; a string (interpolation skipped: not cast yet) is read with the
+    YAML 1.1 spellings `toBoolean` converts later; anything else as `strconv.ParseBool(fmt.Sprint(x))` without the error -/
 def isTrue (v : Val) : Bool :=
   match v with
   | .seq _ => false
   | .map _ => false
+  | .bool b => b
+  | .str s => ["true", "y", "yes", "on"].contains (String.ofList (s.toList.map Char.toLower))
   | v => ["1", "t", "T", "TRUE", "true", "True"].contains (fmtV v)
 
 def resourceNames : List String := ["networks", "volumes", "configs", "secrets"]
